@@ -41,6 +41,8 @@ def one_config(job):
     res = {"idx": idx, "config": desc, "status": None}
     try:
         cf = common.make_codec_features(**kw)
+        common.randomise_video_parameters(cf["video_parameters"], rng)
+        desc["video_parameters"] = {k: (int(v) if not isinstance(v, bool) else v) for k, v in cf["video_parameters"].items()}
         fields = kw["fields"]
         n = rng.choice([0, 1, 2, 3, 4])
         if fields and n % 2:
@@ -134,6 +136,298 @@ def lossless_lengths(args):
     return ("ok", scaler, fields)
 
 
+
+# ==========================================================================================
+# BRIDGE section (ADDED; integration C03 x C07 x C18 x C19 x C01 -- Props/C03.v C03_structure).
+# Real encoder sequences (random configuration, level, header presets, numbering, extra data-unit
+# patterns) -> autofill + serialise -> real deserialiser -> abstraction to Model/Stream.v unit
+# literals (convention and helpers of tools/harness/C01.py, imported) -> in coqc
+# (Model/IntegSeqCorr.v bridge_code):
+#   (a) the abstracted real unit list satisfies the decidable hypotheses of C03_structure,
+#   (b) it EQUALS Model/IntegSeq.v make_sequence_units on the same inputs (names inserted by
+#       make_matching_sequence, fragment split, numbers, offsets, autofilled major_version),
+#   and h_pvmin as computed by the bridge from the header's preset fields = the largest preset
+#   bound the REAL validator logged; _expected_major_version of the real validator = both
+#   formulations of the version rule (C01's and C07's).
+# ==========================================================================================
+BRIDGE_IMPORTS = ["Base.PyZ", "Model.Regex", "Model.Stream", "Model.IntegSeq", "Model.IntegSeqCorr"]
+SYM_NUM = {"auxiliary_data": 1, "end_of_sequence": 2, "high_quality_picture": 3, "high_quality_picture_fragment": 4,
+           "low_delay_picture": 5, "low_delay_picture_fragment": 6, "padding_data": 7, "sequence_header": 8}
+BRIDGE_EXTRA_PATTERNS = [
+    "(. padding_data)* end_of_sequence",
+    "sequence_header auxiliary_data .*",
+    ".* auxiliary_data end_of_sequence",
+    "(sequence_header .)* end_of_sequence",
+    ". padding_data padding_data .*",
+    "(sequence_header | padding_data | high_quality_picture | low_delay_picture)* end_of_sequence",
+    ".* padding_data auxiliary_data padding_data end_of_sequence",
+    "sequence_header (. .)* end_of_sequence",
+]
+BRIDGE_CODES = {1: "pattern does not parse in the model", 2: "pattern violates the `$` hypothesis (eos_ok)",
+                3: "hdr_pvmin (bridge, from the preset fields) differs from the largest preset bound the real validator logged",
+                4: "model make_sequence returns nothing (search out of fuel / impossible / unknown name)",
+                5: "model data units differ from the real ones",
+                6: "a decidable hypothesis of C03_structure fails on the real sequence",
+                7: "validator model rejects", 8: "C07 val_expected differs from the real _expected_major_version",
+                9: "C01 needed version differs from the real _expected_major_version",
+                10: "the level's pattern (level <> 0) does not have the shape `<no end_of_sequence / wildcard / $> end_of_sequence`"}
+
+
+def _tp_fields(tp):
+    wi = int(tp["wavelet_index"])
+    etp = tp.get("extended_transform_parameters")
+    wi_ho = int(etp["wavelet_index_ho"]) if etp is not None and etp.get("asym_transform_index_flag") else wi
+    dho = int(etp["dwt_depth_ho"]) if etp is not None and etp.get("asym_transform_flag") else 0
+    sp = tp["slice_parameters"]
+    return (wi, wi_ho, dho, int(sp["slices_x"]) * 65536 + int(sp["slices_y"]))
+
+
+def _preset(d, flag):
+    from vlib import copt, cbool
+    f = "(Some %s)" % cbool(bool(d[flag])) if flag in d else "None"
+    i = copt(int(d["index"])) if "index" in d else "None"
+    return "(BP %s %s)" % (f, i)
+
+
+def bridge_case(job):
+    """One real encoder sequence -> the pieces of a Coq `bcase` literal (or why there is none)."""
+    seed, idx = job
+    import C01 as h01
+    import C07 as h07
+    import C18 as h18
+    I = h01.impl()          # permissive level CONSTRAINT table (tiny pictures at any level); patterns untouched
+    from vc2_conformance import encoder
+    from vc2_conformance.encoder.exceptions import IncompatibleLevelAndDataUnitError
+    from vc2_conformance.bitstream import vc2_autofill as af, vc2_fixeddicts as fd
+    import importlib
+    dsh = importlib.import_module("vc2_conformance.decoder.sequence_header")
+    from vc2_data_tables import (Levels, PRESET_FRAME_RATES, PRESET_SIGNAL_RANGES, PresetColorPrimaries,
+                                 PresetColorMatrices, PresetTransferFunctions, BaseVideoFormats)
+    rng = random.Random((seed << 21) + 7919 * idx + 3)
+    res = {"idx": idx, "status": None}
+    try:
+        kw = common.random_small_config(rng, max_w=12, max_h=8)
+        level = rng.choice([0, 0, 0, 0, 1, 3, 7, 64, 65, 66, 64, 66])
+        if level in (64, 65, 66) and rng.random() < 0.75:
+            kw["profile"] = "hq" if level == 66 else "ld"
+            kw["fragment_slice_count"] = 0
+            if kw["profile"] == "ld":
+                kw["lossless"] = False
+                kw["picture_bytes"] = kw["slices_x"] * kw["slices_y"] * rng.randint(2, 60)
+            elif not kw["lossless"] and kw.get("picture_bytes") is None:
+                kw["picture_bytes"] = kw["slices_x"] * kw["slices_y"] * rng.randint(4, 100)
+        kw["level"] = Levels(level)
+        kw["base_video_format"] = rng.choice(list(BaseVideoFormats))
+        # header presets (frame rate / signal range / colour) so that the preset version bounds vary
+        if rng.random() < 0.45:
+            sr = PRESET_SIGNAL_RANGES[rng.choice(list(PRESET_SIGNAL_RANGES))]
+            kw.update(luma_offset=sr.luma_offset, luma_excursion=sr.luma_excursion,
+                      color_diff_offset=sr.color_diff_offset, color_diff_excursion=sr.color_diff_excursion)
+        cf = common.make_codec_features(**kw)
+        vp = cf["video_parameters"]
+        if rng.random() < 0.5:
+            fr = PRESET_FRAME_RATES[rng.choice(list(PRESET_FRAME_RATES))]
+            vp["frame_rate_numer"], vp["frame_rate_denom"] = fr.numerator, fr.denominator
+        if rng.random() < 0.4:
+            vp["color_primaries_index"] = rng.choice(list(PresetColorPrimaries))
+        if rng.random() < 0.4:
+            vp["color_matrix_index"] = rng.choice(list(PresetColorMatrices))
+        if rng.random() < 0.4:
+            vp["transfer_function_index"] = rng.choice(list(PresetTransferFunctions))
+        fields = kw["fields"]
+        n = rng.choice([0, 1, 1, 2, 2, 3])
+        if fields and n % 2:
+            n += 1
+        nums = common.legal_picture_numbers(rng, n, fields)
+        pics = [common.random_picture(cf, rng, pic_num=(nums[i] if nums else None)) for i in range(n)]
+        extra = []
+        if rng.random() < 0.35:
+            extra = [rng.choice(BRIDGE_EXTRA_PATTERNS)]
+        level_regex = I["LSR"][Levels(level)].sequence_restriction_regex
+        nm = lambda s: SYM_NUM[s]
+        res["level"] = level
+        res["extra"] = extra
+        res["config"] = common.describe_config(dict((k, v) for k, v in kw.items() if k not in ("level", "base_video_format")))
+        res["n_pictures"] = n
+        res["numbers"] = nums
+        res["lvl_toks"] = h18.coq_tokens(nm, h18.my_tokens(level_regex))
+        res["extra_toks"] = "[" + "; ".join(h18.coq_tokens(nm, h18.my_tokens(p)) for p in extra) + "]"
+        res["defaults"] = h07.defaults_lit(af, fd).replace("(D ", "(BD ", 1)
+        hq = 1 if kw["profile"] == "hq" else 0
+        spec = (hq, int(cf["wavelet_index"]), int(cf["wavelet_index_ho"]), int(cf["dwt_depth_ho"]), int(cf["slices_x"]),
+                int(cf["slices_y"]), int(cf["fragment_slice_count"]))
+        res["specs"] = "[" + "; ".join("(%s)" % ", ".join(cz(x) for x in spec) for _ in range(n)) + "]"
+        res["start"] = nums[0] if nums else 0
+        res["profile"] = 3 if hq else 0
+        res["pcm"] = 1 if fields else 0
+        try:
+            seq = encoder.make_sequence(cf, pics, *extra)
+        except IncompatibleLevelAndDataUnitError:
+            res["status"] = "impossible"
+            return res
+        except (KeyError, IndexError) as e:
+            # data_unit_makers has no maker for a name the search inserted (only the FIRST picture's parse code
+            # name is registered, nothing when there are no pictures) / pop from an empty list: an internal error,
+            # not an UnsatisfiableCodecFeaturesError.  The model says None at exactly these inputs (weave).
+            res["status"] = "maker-error:" + type(e).__name__
+            res["detail"] = repr(e)
+            return res
+        except encoder.UnsatisfiableCodecFeaturesError as e:
+            res["status"] = "unsatisfiable:" + type(e).__name__
+            return res
+        data = common.serialise([seq])
+        # the real validator, recording what parse_parameters / the preset readers log
+        logs = []
+        orig = dsh.log_version_lower_bound
+
+        def rec(state, v):
+            logs.append(int(v))
+            return orig(state, v)
+        dsh.log_version_lower_bound = rec
+        try:
+            verdict, exc, out, state = common.validate(data)
+        finally:
+            dsh.log_version_lower_bound = orig
+        res["verdict"] = verdict
+        if verdict != "accept":
+            res["status"] = "rejected"
+            try:
+                res["detail"] = exc.explain()[:600] if hasattr(exc, "explain") else repr(exc)
+            except Exception:
+                res["detail"] = repr(exc)
+            return res
+        desc, err = common.deserialise(data)
+        if err is not None:
+            res["status"] = "harness-exception:deserialise"
+            res["detail"] = repr(err)
+            return res
+        dus = desc["sequences"][0]["data_units"]
+        raw = h01.split_units(data)
+        assert len(raw) == len(dus)
+        n_hdr = sum(1 for du in dus if int(du["parse_info"]["parse_code"]) == 0)
+        per_hdr = len(logs) // max(1, n_hdr)
+        assert n_hdr >= 1 and per_hdr * n_hdr == len(logs)
+        hdr_logs = [logs[i * per_hdr:(i + 1) * per_hdr] for i in range(n_hdr)]
+        assert all(l == hdr_logs[0] for l in hdr_logs)
+        pvreal = max([1] + hdr_logs[0][1:])      # [0] is the profile's bound
+        abstract, sh_lit = [], None
+        for du, (code, payload) in zip(dus, raw):
+            pi = du["parse_info"]
+            assert int(pi["parse_code"]) == code
+            tail = (13 + len(payload), int(pi["next_parse_offset"]), int(pi["previous_parse_offset"]))
+            if code == 0:
+                sh = du["sequence_header"]
+                pp, v = sh["parse_parameters"], sh["video_parameters"]
+                cs = v.get("color_spec", {})
+                abstract.append((0, 1, int(pp["major_version"]), int(pp["profile"]), int(pp["level"]),
+                                 int(sh["picture_coding_mode"]), pvreal) + tail)
+                lit = "(BH BA None %s %s %s %s %s %s)" % (
+                    _preset(v.get("frame_rate", {}), "custom_frame_rate_flag"),
+                    _preset(v.get("signal_range", {}), "custom_signal_range_flag"),
+                    _preset(cs, "custom_color_spec_flag"),
+                    _preset(cs.get("color_primaries", {}), "custom_color_primaries_flag"),
+                    _preset(cs.get("color_matrix", {}), "custom_color_matrix_flag"),
+                    _preset(cs.get("transfer_function", {}), "custom_transfer_function_flag"))
+                assert sh_lit in (None, lit)
+                sh_lit = lit
+            elif code in (200, 232):
+                pic = du["picture_parse"]
+                abstract.append((1, 1 if code == 232 else 0, int(pic["picture_header"]["picture_number"]))
+                                + _tp_fields(pic["wavelet_transform"]["transform_parameters"]) + tail)
+            elif code in (204, 236):
+                fp = du["fragment_parse"]
+                fh = fp["fragment_header"]
+                cnt = int(fh["fragment_slice_count"])
+                if cnt == 0:
+                    abstract.append((2, 1 if code == 236 else 0, int(fh["picture_number"])) + _tp_fields(fp["transform_parameters"]) + tail)
+                else:
+                    abstract.append((3, 1 if code == 236 else 0, int(fh["picture_number"]), cnt, int(fh["fragment_x_offset"]),
+                                     int(fh["fragment_y_offset"]), 0) + tail)
+            else:
+                abstract.append(({48: 4, 32: 5, 16: 6}[code], 0, 0, 0, 0, 0, 0) + tail)
+        res["units"] = h01.coq_units(abstract)
+        res["names"] = [du["parse_info"]["parse_code"].name for du in seq["data_units"]]
+        res["sh"] = sh_lit
+        res["pvreal"] = pvreal
+        res["expected"] = int(state["_expected_major_version"])
+        res["major"] = abstract[0][2]
+        res["status"] = "ok"
+        return res
+    except Exception as e:
+        res["status"] = "harness-exception:" + type(e).__name__
+        res["detail"] = traceback.format_exc()[-900:]
+        return res
+
+
+def bridge_literal(r, fuel=600):
+    return "(mkBCase %s %s %s %s %s (%s, %s, %s, %s) %s %s %s %d)" % (
+        r.get("units", "[]"), r["lvl_toks"], r["extra_toks"], r["defaults"], r.get("sh", "(BH BA None (BP None None) (BP None None) (BP None None) (BP None None) (BP None None) (BP None None))"),
+        cz(r["profile"]), cz(r["level"]), cz(r["pcm"]), cz(r.get("pvreal", 1)), cz(r["start"]), r["specs"], cz(r.get("expected", 0)), fuel)
+
+
+def run_bridge(ctx):
+    n = ctx.pick(200, 1500)
+    results = common.pmap(bridge_case, [(ctx.seed, i) for i in range(n)])
+    oks = [r for r in results if r["status"] == "ok"]
+    imps = [r for r in results if r["status"] == "impossible"]
+    for r in results:
+        st = r["status"]
+        lv = r.get("level")
+        cls = "level0" if lv == 0 else ("levels1-7" if lv is not None and lv < 64 else "levels64-66")
+        ctx.count(1, key=("bridge", r["idx"]) if st == "ok" and r.get("n_pictures") else None,
+                  bucket="bridge-%s-%s%s" % (st.split(":")[0], cls, "-extra-pattern" if r.get("extra") else ""))
+        if st == "rejected":
+            ctx.violation("encoder-output-rejected:" + r["verdict"], {"bridge": True, "seed": ctx.seed, "idx": r["idx"], "config": r.get("config"),
+                          "level": lv, "extra": r.get("extra"), "n_pictures": r.get("n_pictures"), "numbers": r.get("numbers")},
+                          "validator rejected the encoder's stream: " + r.get("detail", ""), observed=r["verdict"], expected="accept")
+        elif st.startswith("harness-exception"):
+            ctx.note("bridge %s on case %d: %s" % (st, r["idx"], r.get("detail", "")[-400:]))
+    bad = ctx.coq_check_cases("bridge", BRIDGE_IMPORTS, "fun c => bridge_code c =? 0", [bridge_literal(r) for r in oks], shard=20)
+    if bad:
+        details = []
+        for i in bad[:6]:
+            code = ctx.coq_eval("bridge_code_%d" % i, BRIDGE_IMPORTS, "bridge_code %s" % bridge_literal(oks[i]))
+            try:
+                what = BRIDGE_CODES.get(int(str(code).strip().strip("()")), str(code))
+            except ValueError:
+                what = str(code)
+            details.append("case %d (level %s, extra %r, names %r, major %r): %s" % (
+                oks[i]["idx"], oks[i]["level"], oks[i]["extra"], oks[i]["names"], oks[i]["major"], what))
+        # the real validator accepted every one of these streams (else status would be `rejected`): the property holds
+        # at these inputs, the MODEL of make_sequence / the bridge is what differs
+        ctx.obligation("corr:Model/IntegSeq.v make_sequence_units and the version bridge agree with encoder + autofill + validator", False,
+                       "corr-shard", "; ".join(details))
+    bad2 = ctx.coq_check_cases("bridge_impossible", BRIDGE_IMPORTS, "bridge_impossible", [bridge_literal(r) for r in imps], shard=40)
+    if bad2:
+        ctx.obligation("corr:IncompatibleLevelAndDataUnitError iff the model's search is Impossible", False, "corr-shard",
+                       "differs on %r" % [(imps[i]["idx"], imps[i]["level"], imps[i]["extra"]) for i in bad2[:5]])
+    mks = [r for r in results if r["status"].startswith("maker-error")]
+    bad3 = ctx.coq_check_cases("bridge_maker_error", BRIDGE_IMPORTS, "bridge_maker_error", [bridge_literal(r) for r in mks], shard=40)
+    if bad3:
+        ctx.obligation("corr:KeyError/IndexError in data_unit_makers iff the model's makers return nothing", False, "corr-shard",
+                       "differs on %r" % [(mks[i]["idx"], mks[i]["level"], mks[i]["extra"]) for i in bad3[:5]])
+    if mks:
+        ctx.note("bridge: make_sequence raised KeyError/IndexError (not an UnsatisfiableCodecFeaturesError) on %d inputs, e.g. level %s, %d pictures, "
+                 "extra patterns %r: %s -- the search inserts a picture name for which data_unit_makers has no maker; outside the property's "
+                 "hypothesis (configuration not accepted), the model (weave = None) agrees" % (
+                     len(mks), mks[0]["level"], mks[0]["n_pictures"], mks[0]["extra"], mks[0].get("detail")))
+    if oks:
+        r = oks[len(oks) // 2]
+        ctx.sample({"bridge case": r["idx"], "level": r["level"], "extra patterns": r["extra"], "data units": r["names"],
+                    "major_version": r["major"], "largest preset bound logged by the validator": r["pvreal"]})
+    ctx.note("bridge: %d real sequences compared with Model/IntegSeq.v make_sequence_units (%d with inserted units beyond header/end, "
+             "%d with preset bound 3, versions %s), %d refusals compared with the model's Impossible" % (
+                 len(oks), sum(1 for r in oks if len(r["names"]) > 2 + sum(1 for x in r["names"] if "picture" in x)),
+                 sum(1 for r in oks if r["pvreal"] == 3), sorted(set(r["major"] for r in oks)), len(imps)))
+    ctx.trusted.append("C03_structure: hdr_pvmin (what Model/Stream.v's h_pvmin stands for) and the abstraction of real data units to "
+                       "Model/Stream.v literals are tied by the bridge run only; eos_only_last (no end_of_sequence before the last data "
+                       "unit) is a hypothesis of the theorem, evaluated on every real sequence of the bridge run")
+    ctx.extra["rule"] += (" BRIDGE: %d random configurations x level (0, 1-7, 64-66) x header presets x extra data-unit pattern: real "
+                          "make_sequence + autofill + serialise + validate + deserialise, abstracted to Model/Stream.v units and compared in coqc "
+                          "with Model/IntegSeq.v make_sequence_units (equality) + the decidable hypotheses of C03_structure + the real validator's "
+                          "preset / expected-version logs; non-trivial: the encoder produced a sequence with at least one picture." % n)
+
+
 def run(ctx):
     ctx.extra["rule"] = (
         "correspondence: fragment headers of the real make_picture_data_units vs Model/EncoderSeq.frag_split over a grid of "
@@ -223,6 +517,8 @@ def run(ctx):
     oks = [r for r in results if r["status"] == "ok"]
     for r in oks[:3]:
         ctx.sample({"config": r["config"], "pictures": r["n_pictures"], "numbers": r["numbers"], "units": r["units"]})
+    # ---- bridge (added) ------------------------------------------------------------------------
+    run_bridge(ctx)
     ctx.trusted.append("C03 theorems cover the fragment split and (via C19/C07/C01) the unit structure; field validity inside data "
                        "units end to end is covered only by the differential run (encoder -> validator)")
 
@@ -240,6 +536,10 @@ def replay(ctx, data):
         res = seeded_config((inp["slices_x"], inp["slices_y"], inp["fragment_slice_count"]))
         print(res)
         return 1 if any(v != "accept" or n != 2 for (_, v, n) in res) else 0
+    if inp.get("bridge"):
+        r = bridge_case((inp["seed"], inp["idx"]))
+        print(r["status"], r.get("verdict"), r.get("detail"))
+        return 1 if r["status"] == "rejected" else 0
     r = one_config((inp["seed"], inp["idx"]))
     print(r["status"], r.get("verdict"), r.get("detail"))
     return 1 if r["status"] in ("rejected", "bad-output") else 0
